@@ -294,36 +294,35 @@ func teCanon(op *teOp, w *teWorkerOut, v *teView) string {
 	if ng == 0 {
 		b.WriteString(" g:-")
 	}
-	// trace listing
+	// trace listing: pages 1 … ⌈n/50⌉ + 1 (the last one lies beyond the end)
 	b.WriteString(" S=")
-	switch {
-	case len(v.traces) > 50:
-		b.WriteString("multi-page")
-	case len(w.Search) == 0:
-		b.WriteString("missing")
-	case w.Search[0].Status != 200:
-		fmt.Fprintf(&b, "err%d", w.Search[0].Status)
-	default:
-		rows := append([]teTraceRow(nil), v.pages[0]...)
-		sort.Slice(rows, func(i, j int) bool { return rows[i].TraceId < rows[j].TraceId })
-		toks := make([]string, len(rows))
-		for i, r := range rows {
-			toks[i] = strings.Join([]string{r.TraceId, r.ServiceName, r.OperationName, strconv.Itoa(r.SpanCount), strconv.Itoa(r.SpanErrorsCount), teNumText(r.StartTime), teNumText(r.EndTime)}, ":")
-		}
-		if len(toks) == 0 {
-			b.WriteString("-")
-		} else {
-			b.WriteString(strings.Join(toks, ","))
+	npages := (len(v.traces)+49)/50 + 1
+	ptoks := make([]string, npages)
+	for pi := 0; pi < npages; pi++ {
+		switch {
+		case pi >= len(w.Search):
+			ptoks[pi] = "missing"
+		case w.Search[pi].Status != 200:
+			ptoks[pi] = fmt.Sprintf("err%d", w.Search[pi].Status)
+		default:
+			rows := append([]teTraceRow(nil), v.pages[pi]...)
+			sort.Slice(rows, func(i, j int) bool { return rows[i].TraceId < rows[j].TraceId })
+			toks := make([]string, len(rows))
+			for i, r := range rows {
+				toks[i] = strings.Join([]string{r.TraceId, r.ServiceName, r.OperationName, strconv.Itoa(r.SpanCount), strconv.Itoa(r.SpanErrorsCount), teNumText(r.StartTime), teNumText(r.EndTime)}, ":")
+			}
+			ptoks[pi] = "-"
+			if len(toks) > 0 {
+				ptoks[pi] = strings.Join(toks, ",")
+			}
 		}
 	}
+	b.WriteString(strings.Join(ptoks, "|"))
 	// dependency graph
 	b.WriteString(" D=")
-	switch {
-	case len(v.stored) > 100:
-		b.WriteString("beyond-first-page")
-	case w.Dep == nil:
+	if w.Dep == nil {
 		b.WriteString("nil")
-	default:
+	} else {
 		b.WriteString(teDepText(w.Dep))
 	}
 	// RED rows
@@ -430,8 +429,8 @@ func teFullOf(e teStored) (teFull, bool) {
 	st, e1 := strconv.ParseUint(e.start, 10, 64)
 	en, e2 := strconv.ParseUint(e.end, 10, 64)
 	du, e3 := strconv.ParseUint(e.dur, 10, 64)
-	if e1 != nil || e2 != nil || e3 != nil || en < st || du != en-st {
-		return teFull{}, false
+	if e1 != nil || e2 != nil || e3 != nil || (en >= st && du != en-st) || (en < st && du != 0) {
+		return teFull{}, false // (a span that ends before it starts is stored with duration 0)
 	}
 	return teFull{e.trace, e.sid, *e.pid, *e.svc, *e.name, *e.status, st, en, du}, true
 }
@@ -461,6 +460,7 @@ func teJudge(op *teOp, w *teWorkerOut, v *teView) (fails []PropFail, tags []stri
 		storedBy[k] = append(storedBy[k], e)
 	}
 	wantStored := 0
+	wrapSent := false // some accepted OTLP span ends before it starts
 	for ri, rq := range op.reqs {
 		if ri < len(w.Acks) && w.Acks[ri].Panic != "" {
 			if teReqHasNoValue(rq) {
@@ -498,6 +498,14 @@ func teJudge(op *teOp, w *teWorkerOut, v *teView) (fails []PropFail, tags []stri
 							fail("trace-ingest/attribute-overrides-span-field", "span %s of trace %s carries an attribute named like a span field (%s); its stored event no longer has the span's own id / parent / service / name / times / status", s.sid, s.trace, teAttrKeys(s))
 						}
 						continue
+					}
+					if s.end < s.start {
+						wrapSent = true
+						for _, c := range cands {
+							if _, err := strconv.ParseInt(c.dur, 10, 64); err != nil {
+								fail("trace-ingest/end-before-start-duration-wraps", "span %s of trace %s ends %d ns before it starts; stored duration %s (the unsigned difference wrapped around)", s.sid, s.trace, s.start-s.end, c.dur)
+							}
+						}
 					}
 					if len(cands) == 0 {
 						fail("trace-ingest/span-lost-or-altered", "span %s of trace %s (request %d, resource %d) was accepted but no stored event has its ids, name, times and status", s.sid, s.trace, ri, s.res)
@@ -538,6 +546,10 @@ func teJudge(op *teOp, w *teWorkerOut, v *teView) (fails []PropFail, tags []stri
 				fail("trace-ingest/ack", "request %d: every span unsupported, answered %d rejected=%d", ri, a.Status, a.Rejected)
 			}
 		}
+	}
+	if wrapSent && len(v.stored) > 0 && w.Dep == nil {
+		// (no RED rows is not a sign: a window whose spans all have a parent in their own service has none)
+		fail("trace-dep/span-ending-before-its-start-blanks-the-window", "a span that ends before it starts is among the %d stored spans: no dependency graph at all (and %d RED rows) for the WHOLE window", len(v.stored), len(w.Red))
 	}
 	if w.EventErr != "" {
 		fail("trace-ingest/readback-error", "%s", w.EventErr)
@@ -735,6 +747,8 @@ func teJudge(op *teOp, w *teWorkerOut, v *teView) (fails []PropFail, tags []stri
 			allPagesOK = false
 			if !anyDirty {
 				fail("trace-search/error-on-clean-dataset", "page %d of the trace listing answered %d %s although every trace has at most one root", pi+1, w.Search[pi].Status, trunc(w.Search[pi].Text, 120))
+			} else {
+				fail("trace-search/one-ambiguous-trace-fails-the-whole-page", "page %d of the trace listing (%d traces in the window) answered %d %s: a trace whose root spans disagree hides every other trace of its page", pi+1, len(v.traces), w.Search[pi].Status, trunc(w.Search[pi].Text, 120))
 			}
 			continue
 		}
@@ -1300,9 +1314,12 @@ func (g *teGen) malform(sp []teSpan, allowRoots bool) []teSpan {
 			} else {
 				sp[i].sid = ""
 			}
-		case 8: // ends before it starts, by up to 1024 ns: the stored duration (2^64 - d as float64) rounds to 2^64.
-			// (d > 1024 is stored as another float64 whose DECIMAL text the handlers read back as an integer: not modelled)
-			sp[i].end = sp[i].start - uint64(1+r.Intn(1024))
+		case 8: // ends before it starts: by a few ns or by milliseconds
+			if r.Intn(2) == 0 {
+				sp[i].end = sp[i].start - uint64(1+r.Intn(1024))
+			} else {
+				sp[i].end = sp[i].start - uint64(1025+r.Intn(5000000))
+			}
 		}
 	}
 	return sp
